@@ -7,7 +7,10 @@ from vlib.core import uniq
 
 RULE = ('complete product: __conform__ behaviour (8) x provided (2) x hook '
         'lists of length 0-3 over {None, value, raises} (40) x alternate '
-        '{absent, value, None} (3) x __adapt__ kind (9), in both '
+        '{absent, value, None} (3) x __adapt__ kind (9), plus __conform__ '
+        'attached as staticmethod / classmethod / instance attribute '
+        '(function, callable object, functools.partial) x 5 behaviours x '
+        'provided x hook lists <=2 x alternate x 3 __adapt__ kinds, in both '
         'implementations, oracle = precedence model incl. call log; plus '
         'Hypothesis-generated registries whose adapter_hook is the only hook, '
         'oracle = queryAdapter; non-trivial = at least two steps could produce '
@@ -18,6 +21,12 @@ EXHAUSTIVE = True
 CONFORM = ['absent', 'attr_attributeerror', 'attr_valueerror', 'none',
            'value', 'raise_value', 'raise_type', 'raise_attr',
            'unbound_on_class']
+# other ways of giving an object a __conform__: the attribute need not be a
+# bound method (round-4 seed C14e: exceptions were re-raised only for bound
+# methods).  '<form>:<behaviour>'
+FORMS = ['static', 'instattr', 'callobj', 'partial', 'classm']
+BEHAVE = ['none', 'value', 'raise_value', 'raise_type', 'raise_attr']
+CONFORM_FORMS = ['%s:%s' % (f, b) for f in FORMS for b in BEHAVE]
 HOOK = ['none', 'value', 'raise']
 ALT = ['absent', 'value', 'none']
 ADAPT = ['std', 'own_none', 'own_value', 'own_raise', 'own_super',
@@ -47,6 +56,17 @@ def enumerate_cases(cfg):
             for hooks in hooklists:
                 for alt in ALT:
                     for adapt in ADAPT:
+                        yield {'t': 'grid', 'conform': conform,
+                               'provided': provided, 'hooks': hooks,
+                               'alt': alt, 'adapt': adapt}
+    # the other attachment forms, over a reduced but still complete product
+    for conform in CONFORM_FORMS:
+        for provided in (False, True):
+            for hooks in hooklists:
+                if len(hooks) > 2:
+                    continue
+                for alt in ALT:
+                    for adapt in ('std', 'own_value', 'inh_value_im'):
                         yield {'t': 'grid', 'conform': conform,
                                'provided': provided, 'hooks': hooks,
                                'alt': alt, 'adapt': adapt}
@@ -156,9 +176,13 @@ def _grid_case(case, out):
     alt_value = object()
     iface, how = _make_iface(case['adapt'], log, adapt_value)
     conform = case['conform']
+    form = 'method'
+    if ':' in conform:
+        form, conform = conform.split(':')
 
     # --- the object ---
     body = {}
+    instattr = None
     if conform == 'attr_attributeerror':
         def _get(self):
             log.append(('conform_attr',))
@@ -182,7 +206,25 @@ def _grid_case(case, out):
             if conform == 'raise_attr':
                 raise AttributeError('inside conform')
             raise TypeError('inside conform')
-        body['__conform__'] = __conform__
+        if form == 'method':
+            body['__conform__'] = __conform__
+        elif form == 'static':
+            body['__conform__'] = staticmethod(
+                lambda i: __conform__(None, i))
+        elif form == 'classm':
+            body['__conform__'] = classmethod(__conform__)
+        elif form == 'instattr':
+            instattr = lambda i: __conform__(None, i)   # noqa: E731
+        elif form == 'partial':
+            import functools
+            instattr = functools.partial(__conform__, None)
+        elif form == 'callobj':
+            class _Callable:
+                def __call__(self, i):
+                    return __conform__(None, i)
+            instattr = _Callable()
+        else:
+            raise AssertionError(form)
     elif conform == 'unbound_on_class':
         def __conform__(self, i):
             log.append(('conform', id(i)))
@@ -193,6 +235,8 @@ def _grid_case(case, out):
         obj = cls            # the class object itself is adapted
     else:
         obj = cls()
+    if instattr is not None:
+        obj.__conform__ = instattr
     if case['provided']:
         directlyProvides(obj, iface)
 
